@@ -351,6 +351,7 @@ def run(ctx):
             ctx.report(sig, what, {"kind": "e2e", "args": list(a)})
     # M13b: the conversion hops of the storage path (ObjectFactory.convert both ways, pie constructors, SQLite rows,
     # KmipEngine._build_core_object) against the Lean model ConvertObjects, hop by hop, with round-trip monitors
+    concurrent_part(ctx)
     import convert_objects_check
     conv = convert_objects_check.run(ctx, random.Random(ctx.seed * 7919 + 13))
     ctx.coverage.update({
@@ -368,12 +369,95 @@ def run(ctx):
         "traces_validated_against_impl": len(res)})
 
 
+# ------------------------------------------------------------------ stored as supplied - also when clients overlap
+def concurrent_case(seed):
+    """client threads of different users and KMIP versions on one engine at the same time (the threaded workloads of the
+    C10 check): every object is stored with the identity of the client that created it and the names / groups it
+    supplied, and a full attribute listing carries the version-dependent names of ITS request's version"""
+    from props import c10
+    import monitors_engine as M
+    res = c10.case(seed)
+    if not isinstance(res, tuple) or res[0] == "error":
+        return [], 0
+    prefix, threads, outs, order, dump, waited, errs = res
+    objs = {str(o["uid"]): o for o in (dump or {}).get("objs", [])}
+    touched = set()
+    for lines, os_ in zip(threads, outs):
+        for l, o in zip(lines, os_):
+            for it, r in zip(l["req"]["items"], (o or {}).get("results") or []):
+                if r.get("status") == "ok" and it["op"] in ("modifyAttribute", "setAttribute", "deleteAttribute", "destroy"):
+                    touched.add(str(it.get("uid")))
+    fails, n = [], 0
+    for t, (lines, os_) in enumerate(zip(threads, outs)):
+        for l, o in zip(lines, os_):
+            if not isinstance(o, dict) or "results" not in o:
+                continue
+            ver = l["req"]["version"]
+            for it, r in zip(l["req"]["items"], o["results"]):
+                if r.get("status") != "ok":
+                    continue
+                n += 1
+                d = r.get("data") or {}
+                if it["op"] in ("create", "register") and str(d.get("uid")) in objs:
+                    ob = objs[str(d["uid"])]
+                    if ob["owner"] != l["id"]["user"]:
+                        fails.append(("c05:stored-with-another-clients-identity",
+                                      "object %s was created by %s (thread %d) and is stored as owned by %r"
+                                      % (d["uid"], l["id"]["user"], t, ob["owner"])))
+                    tm = it.get("tmpl")
+                    if tm is not None and not tm.get("tnames") and str(d["uid"]) not in touched:
+                        names, groups, appinfo = M._supplied(tm)
+                        if ob.get("names") != names or ob.get("groups") != groups:
+                            fails.append(("c05:created-attributes-differ:concurrent",
+                                          "object %s was made with names %r groups %r, the store has %r %r"
+                                          % (d["uid"], names, groups, ob.get("names"), ob.get("groups"))))
+                got = None
+                if it["op"] == "getAttributeList":
+                    got = set(d.get("names") or [])
+                elif it["op"] == "getAttributes" and not it.get("names"):
+                    got = set(x["name"] for x in d.get("attrs") or [])
+                if got is not None and ver in (10, 11, 12, 13, 14, 20):
+                    bad = []
+                    if ("Operation Policy Name" in got) != (ver < 20):
+                        bad.append("Operation Policy Name")
+                    if ("Sensitive" in got) != (ver >= 14):
+                        bad.append("Sensitive")
+                    if bad:
+                        fails.append(("c05:attribute-listing-differs:concurrent:%s" % ",".join(bad),
+                                      "%s under KMIP %s (thread %d of %d, versions %s) reports %s"
+                                      % (it["op"], ver, t, len(threads), [th[0]["req"]["version"] for th in threads if th],
+                                         sorted(got))))
+    return fails, n
+
+
+def concurrent_part(ctx):
+    import multiprocessing
+    k = 60 if ctx.tier == "quick" else 1200
+    seeds = [ctx.seed * 5557 + 4100 + i for i in range(k)]
+    with multiprocessing.get_context("fork").Pool(8) as pool:
+        res = pool.map(concurrent_case, seeds)
+    tot = 0
+    for sd, (fails, n) in zip(seeds, res):
+        tot += n
+        for sig, what in fails[:2]:
+            ctx.report(sig, what, {"kind": "concurrent", "seed": sd})
+    ctx.coverage["concurrent_workloads"] = k
+    ctx.coverage["concurrent_successful_items"] = tot
+    ctx.coverage["evaluations"] = (ctx.coverage.get("evaluations") or 0) + tot
+
+
 def search(ctx, broken):
     run(ctx)
 
 
 def replay(ctx, rep):
     r = rep.get("replay", rep)
+    if r.get("kind") == "concurrent":
+        bad = 0
+        for _ in range(10):
+            bad += 1 if concurrent_case(r["seed"])[0] else 0
+        print("  runs (of 10) with an object stored / listed under another client's identity or version: %d" % bad)
+        return bad == 0
     if r.get("kind") in ("engine-history", "correspondence"):
         import engine_check
         import monitors_engine as M
